@@ -12,6 +12,7 @@ the Anchor struct they replace, before the first effect; remaining-account slice
 routed to the field of their own type.
 Also decided: both TickArraysMut::load wrappers propagate loader errors and skip the upper array only for the
 same account;
+Also decided: every `#[instruction(..)]` list agrees position by position (names and types) with the entry's arguments.
 Not decided: the run-time behaviour of the Anchor / SPL checks themselves."""
 import re
 from analysis import cfg, atoms as A, preach, pino, program, accounts as ACC, writes
